@@ -4,6 +4,7 @@ pub mod rules;
 pub mod tests;
 
 use crate::scanner::token::*;
+use std::io::{self, Write};
 use crate::scanner::*;
 use ast::expr::*;
 use ast::stmt::*;
@@ -454,7 +455,7 @@ impl Parser {
             return false;
         }
         for msg in &self.errors {
-            eprintln!("{}", msg);
+            let _ = writeln!(io::stderr(), "{}", msg);
         }
         true
     }
